@@ -160,6 +160,11 @@ func do() (err error) {
 	if len(gopts.OutputFile) > 0 && filepath.Ext(gopts.OutputFile) != ".go" {
 		return fmt.Errorf("output-file value: %q invalid. A {FILENAME}.go name must be provided", gopts.OutputFile)
 	}
+	if len(gopts.OutputFile) > 0 && filepath.Base(gopts.OutputFile) != gopts.OutputFile {
+		// The file goes into the package directory of the Thrift file; a value
+		// such as "../../x.go" would otherwise be written outside --out.
+		return fmt.Errorf("output-file value: %q invalid. A {FILENAME}.go name without directories must be provided", gopts.OutputFile)
+	}
 
 	pluginHandle, err := gopts.Plugins.Handle()
 	if err != nil {
